@@ -114,3 +114,12 @@ package packets
 //@ ensures [C06] !mustUTF8 && (forall i int :: 0 <= i && i < len(p) ==> p[i] != 43 && p[i] != 35) ==> result
 //@ loop 1 invariant ref(p) == ref(old(p)) && off(p) >= off(old(p)) && off(p) + len(p) == off(old(p)) + len(old(p))
 //@ loop 1 invariant forall i int :: 0 <= i && i < off(p) - off(old(p)) ==> old(p)[i] != 43 && old(p)[i] != 35
+
+//@ func IsVersion3X inline
+//@ func IsVersion5 inline
+
+//@ func (*Connect).NewConnackPacket
+//@ props C05
+//@ requires c != nil
+//@ ensures [C05] result != nil && isfresh(result) && result.Code == code && result.Version == c.Version && result.Properties == nil
+//@ ensures [C05] result.SessionPresent == (!c.CleanStart && sessionReuse && code == 0)
